@@ -50,19 +50,21 @@ def pregen(check):
 
 CFG = {
     "id": "C19",
-    "lean_modules": ["GeomV.C19.Heap", "GeomV.C19.Proofs"],
+    "lean_modules": ["GeomV.C19.Heap", "GeomV.C19.Ident", "GeomV.C19.Proofs"],
     "exe": "geomv_c19",
     "go_cmd": "c19",
     "stages": ["go:gen", "go:impl", "lean:judge"],
     "pregen": pregen,
     "theorems": [T + n for n in ["bellmanFord_correct", "pickMin_spec", "listQ_spec", "heapUp_spec", "heapDown_spec", "heapQ_spec", "astar_optimal", "consistent_zero", "heuristic_consistent",
-                                 "polyLen_ge_chord", "euclidR_tri", "C19_route", "C19_unreachable", "build_wf", "C19_built", "C19_built_gonum", "C19_history", "C19_gap_not_minimal", "C19_gap_fixed"]],
+                                 "polyLen_ge_chord", "euclidR_tri", "C19_route", "C19_unreachable", "build_wf", "C19_built", "C19_built_gonum", "C19_history", "C19_gap_not_minimal", "C19_gap_fixed", "newNode_class", "addLink_ident", "C19_ident"]],
     "trusted_base": [
         "Lean 4.33.0 kernel; axioms of every theorem printed by #print axioms must be within {propext, Classical.choice, Quot.sound}",
         "model lean/GeomV/C19/Model.lean is tied to /repo/route/route.go and to gonum v0.9.3 graph/path.AStar by the correspondence run on every check "
         "(adapter dump Nodes/From/Edge/Weight compared exactly; route cost compared with the model's and with the verified Bellman-Ford optimum); "
         "gonum is pinned by its go.sum hash; path.Weighted satisfaction is asserted at compile time and reported at run time",
-        "gonum's binary heap and node iterators are exercised, not proved: the model abstracts the heap to `PickSpec` (some entry of minimal fscore)",
+        "gonum's binary heap IS modelled and proved (heapQ_spec); the model is tied to the real container/heap + a verbatim copy of gonum's unexported aStarQueue "
+        "(copy compared with the module source in pregen) by slot-by-slot layout comparison after every operation of random Push/update/Pop histories (family heapq); "
+        "the Go map order behind From is an arbitrary-permutation parameter of the theorems",
         "op.Length / op.Distance / op.PointEquals / rtree.NearestNeighbor(k=1) are parameters of the model; the driver instance computes them in exact Rat "
         "(sqrt only under the 1e-9 tolerance class)",
         "harness/cmd/c19 + lean driver + lib/vcheck.py transport inputs faithfully",
@@ -82,6 +84,8 @@ CFG = {
             "hand corpus (route tests, DESIGN 6-link case, fast-long vs slow-short, components), grids with random deletions/detoured links/long chords, "
             "chains of diamonds whose one-link side is the most expensive, motorway-vs-slow-direct with a very slow spur (time option), 2-3 components, "
             "random float networks with bent links and speeds over 3 decades, end points perturbed on both sides of the 1e-9 identification threshold; "
-            "6 query pairs per network, both options. distinct = distinct input line; non-trivial = class not skipped-*",
+            "6 query pairs per network, both options; gapnet: integer networks at ~1e9 whose junction vertices are 1-7 units off their node (inside the tolerance) with a direct "
+            "link that is cheaper than the chain only for an unscaled heuristic, shuffled order/orientation, both options; heapq: 1-400 operation histories on the priority queue "
+            "alone with frequent score ties. distinct = distinct input line; non-trivial = class not skipped-*",
     "timeout": {"quick": 900, "thorough": 3000},
 }
